@@ -36,9 +36,9 @@ def _s(xs):
     return "{" + ", ".join(json.dumps(x) for x in xs) + "}"
 
 
-def cfg(names, kinds, max_runs, max_writes, max_removes, lookups, emit=False):
+def cfg(names, kinds, max_runs, max_writes, max_removes, lookups, emit=False, max_fails=0):
     lines = ["SPECIFICATION Spec", "CONSTANTS", f"  Names = {_s(names)}", f"  AmbigNames = {_s([n for n in names if n in AMBIG])}",
-             f"  Kinds = {_s(kinds)}", f"  MaxRuns = {max_runs}", f"  MaxWrites = {max_writes}", f"  MaxRemoves = {max_removes}",
+             f"  Kinds = {_s(kinds)}", f"  MaxRuns = {max_runs}", f"  MaxWrites = {max_writes}", f"  MaxRemoves = {max_removes}", f"  MaxFails = {max_fails}",
              f"  Lookups = {'TRUE' if lookups else 'FALSE'}", "CHECK_DEADLOCK FALSE"]
     if emit:
         lines += ["CONSTRAINT EmitState", "ACTION_CONSTRAINT EmitEdge"]
@@ -55,19 +55,20 @@ def core_key(core) -> str:
                        "made": made if isinstance(made, dict) else {}, "nrem": core.get("nrem", 0)}, sort_keys=True)
 
 
-def load_graph(chk: Check, names, kinds, max_runs, max_writes, max_removes, label):
-    res = run_tlc("ProjectRuns", cfg(names, kinds, max_runs, max_writes, max_removes, True), workers=16, timeout=1500)
-    need = (["Optimize", "Latest"] if names and max_runs else []) + (["Remove"] if names and max_removes else []) + (["ItemOp"] if kinds and max_writes else [])
+def load_graph(chk: Check, names, kinds, max_runs, max_writes, max_removes, label, max_fails=0):
+    res = run_tlc("ProjectRuns", cfg(names, kinds, max_runs, max_writes, max_removes, True, max_fails=max_fails), workers=16, timeout=1500)
+    need = (["Optimize", "Latest"] if names and max_runs else []) + (["OptimizeFails"] if max_fails else []) + (["Remove"] if names and max_removes else []) + (["ItemOp"] if kinds and max_writes else [])
     require_actions(res, need)
     chk.add_tlc(res, f"ProjectRuns[{label}]")
-    em = run_tlc("ProjectRunsEmit", cfg(names, kinds, max_runs, max_writes, max_removes, False, emit=True), workers=1, timeout=1500, coverage=False)
+    em = run_tlc("ProjectRunsEmit", cfg(names, kinds, max_runs, max_writes, max_removes, False, emit=True, max_fails=max_fails), workers=1, timeout=1500, coverage=False)
     raw_states = printed_json(em["stdout"], "STATE")
     raw_edges = printed_json(em["stdout"], "EDGE")
     if len(raw_edges) + 1 != em["generated"] or len(raw_states) < em["distinct"]:
         raise MachineryError(f"ProjectRunsEmit[{label}]: {len(raw_states)} states / {len(raw_edges)} edges parsed, TLC reports {em['distinct']} / {em['generated']}")
     states = {}
     for s in raw_states:
-        states.setdefault(core_key(s["core"]), {"core": s["core"], "latest": s["latest"] if isinstance(s["latest"], dict) else {}, "folders": {f["folder"]: [f["name"], f["n"]] for f in s["folders"]}})
+        states.setdefault(core_key(s["core"]), {"core": s["core"], "latest": s["latest"] if isinstance(s["latest"], dict) else {}, "folders": {f["folder"]: [f["name"], f["n"]] for f in s["folders"]},
+                                                     "partial": {f["folder"] for f in s["folders"] if f.get("partial")}})
     edges, seen = [], set()
     for e in raw_edges:
         k = (core_key(e["src"]), json.dumps(e["act"], sort_keys=True), core_key(e["dst"]))
@@ -212,6 +213,42 @@ class Replayer:
             return e["dst"]
         return None
 
+    def exec_optimize_fails(self, real: Real, src, alts):
+        """A save that fails midway: one dataset of the result cannot be written as netCDF (an attribute that is no netCDF value), so the
+        run folder is created and partly filled but gets no result.yml.  Its number is taken; nothing that existed before may change."""
+        import copy
+        from glotaran.project.project_result_registry import ProjectResultRegistry
+        e = alts[0]
+        name, folder = e["act"]["name"], e["folder"]
+        pre = real.listing()
+        replay = {"engine": "c18-runs", "level": self.level, "state": sorted(self.states[src]["folders"].items()), "op": "optimize_fails", "name": name, "folder": folder}
+        result = copy.copy(objects()["result"])
+        data = dict(result.data)
+        bad = data[sorted(data)[-1]].copy()
+        bad.attrs["not_a_netcdf_value"] = object()
+        data["zz_unwritable"] = bad
+        result.data = data
+        ex = None
+        try:
+            with warnings.catch_warnings(), contextlib.redirect_stdout(io.StringIO()):
+                warnings.simplefilter("ignore")
+                ProjectResultRegistry(real.proj).save(name, result)
+        except Exception as x:  # noqa: BLE001
+            ex = x
+        post = real.listing()
+        new = post - pre
+        self.check_earlier(real, pre, src, e["act"], replay)
+        if ex is None:
+            raise MachineryError("the unwritable dataset did not make the save fail")
+        if new == {folder} and pre <= post and not (real.results / folder / "result.yml").exists():
+            real.run_fp[folder] = folder_digest(real.results / folder)       # the leftover files must stay as they are from now on
+            return e["dst"]
+        own = sorted(n for nm, n in self.states[src]["folders"].values() if nm == name)
+        self.mismatch(f"ProjectResultRegistry.save({name!r}, result) failing midway", f"{_exc_name(ex)}, results folder changed: +{sorted(new)} -{sorted(pre - post)}",
+                      "a partial folder <name>_run_<largest own run number + 1, or 0000> and nothing else", src,
+                      f"FreshIncreasing (partial runs take their number): own runs {own}, expected partial folder {folder!r}; new={sorted(new)}, removed={sorted(pre - post)}", replay)
+        return None
+
     def exec_remove(self, real: Real, src, alts):
         e = alts[0]
         shutil.rmtree(real.results / e["folder"])
@@ -266,6 +303,8 @@ class Replayer:
         op = alts[0]["act"]["op"]
         if op == "optimize":
             return self.exec_optimize(real, src, alts)
+        if op == "optimize_fails":
+            return self.exec_optimize_fails(real, src, alts)
         if op == "remove":
             return self.exec_remove(real, src, alts)
         return self.exec_item(real, src, alts)
@@ -336,7 +375,7 @@ class Replayer:
             if ok1:   # same function with the warning on: reported only when it differs from the muted call
                 compare(f"get_result_path({name!r})", "get_result_path/warn", name, name, self._ask(lambda: proj.get_result_path(name)), want_folders, want_err)
             ok2 = compare(f"get_latest_result_path({name!r})", "get_latest_result_path", name, name, self._ask(lambda: proj.get_latest_result_path(name)), want_folders, want_err)
-            if do_load and want_folders:
+            if do_load and want_folders and not (want_folders & st.get("partial", set())):
                 self.n_loads += 2
                 if ok1:
                     compare(f"load_result({name!r}, latest=True)", "load_result/latest", name, name, self._ask(lambda: proj.load_result(name, latest=True)), want_folders, want_err)
@@ -348,10 +387,10 @@ class Replayer:
             want_err = any(a["err"] for a in allowed)
             compare(f"get_result_path(<run specifier of {name!r}>)", "get_result_path", folder, name, self._ask(lambda: proj.get_result_path(folder)), {folder}, False, exact=True)
             ok = compare(f"get_latest_result_path(<run specifier of {name!r}>)", "get_latest_result_path", folder, name, self._ask(lambda: proj.get_latest_result_path(folder)), want_folders, want_err)
-            if do_load and i == self.n_states % len(st["folders"]):
+            if do_load and i == self.n_states % len(st["folders"]) and folder not in st.get("partial", set()):
                 self.n_loads += 1
                 compare(f"load_result(<run specifier of {name!r}>)", "load_result", folder, name, self._ask(lambda: proj.load_result(folder)), {folder}, False, exact=True)
-                if ok:
+                if ok and not (want_folders & st.get("partial", set())):
                     self.n_loads += 1
                     compare(f"load_latest_result(<run specifier of {name!r}>)", "load_latest_result", folder, name, self._ask(lambda: proj.load_latest_result(folder)), want_folders, want_err)
 
@@ -417,8 +456,8 @@ def init_key(kinds, names) -> str:
     return core_key({"runs": [], "files": {k: 0 for k in kinds}, "made": {n: 0 for n in names}, "nrem": 0})
 
 
-def run_graph(chk: Check, level, names, kinds, max_runs, max_writes, max_removes, label, load_every=1, edge_budget=None, rng=None):
-    states, edges = load_graph(chk, names, kinds, max_runs, max_writes, max_removes, label)
+def run_graph(chk: Check, level, names, kinds, max_runs, max_writes, max_removes, label, load_every=1, edge_budget=None, rng=None, max_fails=0):
+    states, edges = load_graph(chk, names, kinds, max_runs, max_writes, max_removes, label, max_fails=max_fails)
     rp = Replayer(chk, level, states, names, label, load_every)
     flt = None
     if edge_budget is not None and len(edges) > edge_budget:
